@@ -20,6 +20,7 @@ import (
 	"time"
 
 	"trpc.group/trpc-go/trpc-mcp-go/internal/retry"
+	"trpc.group/trpc-go/trpc-mcp-go/internal/verifhook"
 )
 
 // StdioServerParameters defines parameters for launching a stdio MCP server.
@@ -402,6 +403,7 @@ func (t *stdioClientTransport) handleResponse(rawMessage json.RawMessage) {
 	t.pendingMutex.RLock()
 	respChan, exists := t.pendingRequests[reqID]
 	t.pendingMutex.RUnlock()
+	verifhook.Yield("stdio-client:response-looked-up")
 
 	if !exists {
 		t.logger.Warnf("No pending request for ID: %d", reqID)
@@ -460,6 +462,7 @@ func (t *stdioClientTransport) handleErrorResponse(rawMessage json.RawMessage) {
 	t.pendingMutex.RLock()
 	respChan, exists := t.pendingRequests[reqID]
 	t.pendingMutex.RUnlock()
+	verifhook.Yield("stdio-client:response-looked-up")
 
 	if !exists {
 		t.logger.Warnf("No pending request for error ID: %d", reqID)
